@@ -16,6 +16,7 @@
 
 using namespace vh;
 
+static bool g_footprints = false;
 struct Sched { char kind; size_t n; std::vector<vtbb::Node> tree; std::vector<size_t> bounds; std::vector<int> perm; };
 
 static int parse_tree(std::istringstream &is, std::vector<vtbb::Node> &out) {
@@ -99,7 +100,14 @@ template<class Graph> struct Run {
         c.record = false;
         record(base, "unsplit");
         // 2. degenerate families and random schedules over all regions
-        for (int d = 0; d < 4; d++) { c.mode = 3; c.degenerate = d; record(once(b, in, algo, k), "degenerate" + std::to_string(d)); }
+        for (int d = 0; d < 4; d++) {
+            c.mode = 3; c.degenerate = d;
+            // footprints of every task on the shared concurrent_vectors (data-race clause), all-singleton schedule
+            c.footprints = g_footprints && d == 0; c.fp_events.clear();
+            record(once(b, in, algo, k), "degenerate" + std::to_string(d));
+            if (c.footprints) for (auto &e : c.fp_events) emit("{\"algo\":\"" + algo + "\",\"id\":" + std::to_string(in.id) + "," + e.substr(1));
+            c.footprints = false; c.fp_events.clear();
+        }
         for (int r = 0; r < nrandom; r++) { c.mode = 1; c.seed = seed * 1000003ULL + (uint64_t) r * 7919ULL + (uint64_t) in.id; record(once(b, in, algo, k), "random" + std::to_string(c.seed)); }
         // 3. one region at a time under every TLC-generated schedule of its size
         int done_regions = 0;
@@ -134,6 +142,7 @@ int main(int argc, char **argv) {
     int max_regions = atoi(arg_value(argc, argv, "--max-regions", "6"));
     uint64_t seed = (uint64_t) atol(arg_value(argc, argv, "--seed", "1"));
     long start = atol(arg_value(argc, argv, "--start", "0"));
+    g_footprints = has_flag(argc, argv, "--footprints");
     if (!in || !out) return 2;
     g_out = fopen(out, start > 0 ? "a" : "w");
     if (!g_out) return 2;
